@@ -207,6 +207,10 @@ func (engine *Engine) TakeSnapshot() error {
 		}
 	}
 
+	// The writes counted so far are in the state copied below. Writes that arrive while the snapshot is being
+	// written are not: they stay counted towards the next snapshot.
+	counted := engine.changeCount.Load()
+
 	// Get current state
 	snapshotObject := internal.SnapshotObject{
 		State:                      internal.FilterExpiredKeys(engine.clock.Now(), engine.getStateFunc()),
@@ -313,8 +317,8 @@ func (engine *Engine) TakeSnapshot() error {
 	// Set the latest snapshot in unix milliseconds
 	engine.setLatestSnapshotTimeFunc(msec)
 
-	// Reset the change count
-	engine.resetChangeCount()
+	// Take the writes this snapshot holds off the change count
+	engine.changeCount.Add(^(counted - 1))
 
 	return nil
 }
